@@ -122,6 +122,9 @@ type Exec struct {
 	curState *State
 	axioms   []*Term // facts about the entry state only (always included)
 	ifaceBounds []ifaceBound
+	ifaceAx     []*Term
+	infoCache   []*Term
+	lowPrio     map[*Term]bool // hypotheses instantiated last (heap-closure axioms)
 }
 
 type Frame struct {
@@ -144,6 +147,13 @@ type loopInfo struct {
 	headSt  *State
 	headVals map[string]*Val // names visible at header (phis by comment)
 	decHead []*Term
+}
+
+func (ex *Exec) markLow(t *Term) {
+	if ex.lowPrio == nil {
+		ex.lowPrio = map[*Term]bool{}
+	}
+	ex.lowPrio[t] = true
 }
 
 func (ex *Exec) assume(t *Term) {
@@ -210,6 +220,7 @@ func (ex *Exec) heapGet(st *State, comp string, s *Sort) *Term {
 	if ex.st0 != nil {
 		if ax := ex.closureAxiom(comp, t, ex.st0.alloc); ax != True {
 			ex.axioms = append(ex.axioms, ax)
+			ex.markLow(ax)
 		}
 	}
 	return t
@@ -743,12 +754,12 @@ func (ex *Exec) instr(fr *Frame, in ssa.Instruction, st *State, reach *Term) {
 			sl := xv.T
 			ex.safe("index", reach, And(Le(IntLit(0), iv), Lt(iv, Acc("slen", sl))), ex.posStr(x))
 			comp, s := V.elemComp(t.Elem())
-			fr.vals[x] = &Val{Loc: &Loc{Kind: LElem, Comp: comp, S: s, Ref: Acc("sbase", sl), Idx: Add(Acc("soff", sl), iv), Typ: t.Elem()}}
+			fr.vals[x] = &Val{Loc: &Loc{Kind: LElem, Comp: comp, S: s, Ref: Acc("sbase", sl), Idx: At(Acc("soff", sl), iv), Typ: t.Elem()}}
 		case *types.Pointer:
 			at := t.Elem().Underlying().(*types.Array)
 			l := ex.locOf(xv, x.X.Type())
 			ex.safe("index", reach, And(Le(IntLit(0), iv), Lt(iv, IntLit(at.Len()))), ex.posStr(x))
-			fr.vals[x] = &Val{Loc: &Loc{Kind: LElem, Comp: l.Comp, S: l.S, Ref: l.Ref, Idx: Add(l.Idx, iv), Typ: at.Elem()}}
+			fr.vals[x] = &Val{Loc: &Loc{Kind: LElem, Comp: l.Comp, S: l.S, Ref: l.Ref, Idx: At(l.Idx, iv), Typ: at.Elem()}}
 		default:
 			ex.fail("IndexAddr on %s", x.X.Type())
 		}
